@@ -391,6 +391,33 @@ func c20CheckV(r *rep.Run, w *c20worker, c c20cfg, level int, how string, res ev
 	if got.Err != nil || got.Panic != nil || (!ref.ValEqual(got.Val, res.Res) && !(got.Val == eval.DNE && res.Res == eval.DNE)) {
 		d["engine"] = got.String()
 		r.Violate("engine-disagrees", c.String(), sprintf("evaluating the generated expression gives %s, the generator reports %v", got, res.Res), d)
+		return
+	}
+	// the same evaluation through the context the LIBRARY builds from the
+	// variables (NewCtxFromVars picks the fetcher from the config: every name is
+	// registered, so the slice-backed one); DNE variables are handed over the
+	// way the generator describes them, as DNE-valued entries
+	given := map[string]interface{}{}
+	for name := range env.Vals {
+		if vf.dne(name) {
+			given[name] = eval.DNE
+		} else if v, ok := vf.val(name); ok {
+			given[name] = v
+		}
+	}
+	var lv eval.Value
+	var lerr error
+	pn, site := drive.Fence(func() {
+		ctx := eval.NewCtxFromVars(w.cfg, given)
+		if hasDNE {
+			lv, lerr = e.TryEval(ctx)
+		} else {
+			lv, lerr = e.Eval(ctx)
+		}
+	})
+	if pn != nil || lerr != nil || (!ref.ValEqual(lv, res.Res) && !(lv == eval.DNE && res.Res == eval.DNE)) {
+		d["engine_through_NewCtxFromVars"] = fmt.Sprintf("%v / %v / panic %v %s", lv, lerr, pn, site)
+		r.Violate("engine-disagrees", c.String()+"libctx", sprintf("evaluating the generated expression with the context NewCtxFromVars builds from its variables gives %v (error %v, panic %v), the generator reports %v", lv, lerr, pn, res.Res), d)
 	}
 }
 
@@ -629,6 +656,78 @@ func c20(r *rep.Run) {
 		r.Cov["reused_option_histories"] = len(rjobs)
 		r.Cov["reused_option_runs"] = reuseRuns
 		seedRuns += reuseRuns
+	}
+	// several GenVariables options in ONE call (a caller holding its variables
+	// in more than one map): every ordered sequence of 2..3 distinct maps from a
+	// menu that splits the GenVariables names by kind and size; the generator
+	// must see the union, each name with its own kind and value
+	{
+		pick := func(names ...string) map[string]interface{} {
+			m := map[string]interface{}{}
+			for _, n := range names {
+				v, ok := c20GenVarMap[n]
+				if !ok {
+					panic("c20: unknown GenVariables name " + n)
+				}
+				m[n] = v
+			}
+			return m
+		}
+		menu := []map[string]interface{}{
+			pick("b_true", "b_flag.1", "n_seven"),
+			pick("n_i32"),
+			pick("n_u8", "n_q.2x", "n_slot.0"),
+			pick("d_one", "x_str"),
+			pick("n_dur", "n_time", "x_level"),
+			pick("b_flag.1"),
+		}
+		var seqs [][]int
+		for a := range menu {
+			for b := range menu {
+				if b == a || (a == 0 && b == 5) || (a == 5 && b == 0) {
+					continue
+				}
+				seqs = append(seqs, []int{a, b})
+				for c := range menu {
+					if c == a || c == b || ((a == 0 || b == 0) && c == 5) || ((a == 5 || b == 5) && c == 0) {
+						continue
+					}
+					seqs = append(seqs, []int{a, b, c})
+				}
+			}
+		}
+		multiSeeds := 40
+		if r.Thorough() {
+			multiSeeds = 400
+		}
+		var multiRuns int64
+		r.ParallelFor(len(seqs)*2, func(wi, ji int) {
+			sq, gb := seqs[ji/2], ji%2 == 0
+			w := ws[wi]
+			gt := eval.GenType(eval.GenNumber)
+			if gb {
+				gt = eval.GenType(eval.GenBool)
+			}
+			opts := []eval.GenExprOption{gt, eval.EnableVariable, eval.EnableCondition, eval.EnableTryEval}
+			for _, k := range sq {
+				opts = append(opts, eval.GenVariables(menu[k]))
+			}
+			c := c20cfg{genBool: gb, vars: true, cond: true, try: true, viaGenVariables: true}
+			for level := 1; level <= 5; level++ {
+				for sd := 0; sd < multiSeeds; sd++ {
+					var res eval.GenExprResult
+					if p, site := drive.Fence(func() { res = eval.GenerateRandomExpr(level, rand.New(rand.NewSource(int64(sd))), opts...) }); p != nil {
+						r.Violate("generator-panic", site, sprintf("GenerateRandomExpr panics: %v", p), map[string]interface{}{"level": level, "seed": sd, "GenVariables_maps": fmt.Sprint(sq)})
+						continue
+					}
+					atomic.AddInt64(&multiRuns, 1)
+					c20Check(r, w, c, level, sprintf("seed %d, GenVariables options for the maps %v of the menu in one call", sd, sq), res, &stats)
+				}
+			}
+		})
+		r.Cov["multi_map_sequences"] = len(seqs) * 2
+		r.Cov["multi_map_runs"] = multiRuns
+		seedRuns += multiRuns
 	}
 	r.Cov["decision_sequences"] = fmtSeq
 	r.Cov["shape_model_in_sync"] = outOfSync == 0
